@@ -675,6 +675,12 @@ class Peer:
             i += n
         if buf:
             return None, 'residual %d bytes' % len(buf)
+        # _build_message would wait for ever for body bytes that were never sent: look first
+        announced = [f.body_size for f in self.cch._inbound if f.name == 'ContentHeader']
+        carried = sum(len(f.value) for f in self.cch._inbound if f.name == 'ContentBody')
+        if announced and carried < announced[0]:
+            self.cch._inbound.clear()
+            return None, 'content header announces %d bytes, the body frames carry %d' % (announced[0], carried)
         m = self.cch._build_message(auto, Message)
         return m, '%d frames left' % len(self.cch._inbound)
 
